@@ -1,8 +1,10 @@
 (* Properties_C12.v -- C12: the SLOC cache is transparent. Property theorems only; each is closed
    by [exact <lemma>] and followed by Print Assumptions. Model: Cache/Model.v (src/cache/mod.rs,
    commands/context.rs: process_file_with_cache, load_cache, save_cache), for EVERY operation
-   history (no bound on length, paths, contents), every counter oracle [truth] and every size
-   function [csize]. The model is the code AFTER the repair of D13 (racy-clean rule: an entry is
+   history (no bound on length, paths, contents), every counter oracle [truth], every size
+   function [csize] and every configuration-hash function [chash] that is injective on
+   [languages] tables (the assumption on SHA-256 + serialisation; the run checks that different
+   tables observed give different hashes, and C12_refuted_colliding_hash shows it is needed). The model is the code AFTER the repair of D13 (racy-clean rule: an entry is
    stored only when its mtime second is older than the clock reading taken before the file was
    looked at). What remains refuted: a rename that puts a same-(mtime second, size) file at a
    cached path (K12_rename_same_meta) and a well-formed in-place edit of cache.json
@@ -16,26 +18,26 @@ Open Scope N_scope.
    rename collision and without a forged cache file, prints exactly what the same invocation
    prints with --no-sloc-cache; same-size rewrites and rewrites in the second of a previous run
    included *)
-Theorem C12_transparent_modulo_known : forall truth csize h,
-  monotone_clock h = true -> has_racy_rename truth csize h = false -> has_forgery truth csize h = false ->
-  transparent truth csize h = true.
+Theorem C12_transparent_modulo_known : forall truth csize chash, (forall a b, chash a = chash b -> a = b) -> forall h,
+  monotone_clock h = true -> has_racy_rename truth csize chash h = false -> has_forgery truth csize chash h = false ->
+  transparent truth csize chash h = true.
 Proof. exact transparent_modulo_known. Qed.
 Print Assumptions C12_transparent_modulo_known.
 
 (* the D13 window is closed: under the same hypotheses no write can ever collide with the cached
    entry of its path (same mtime second, same size, other content) *)
-Theorem C12_no_racy_write : forall truth csize h,
-  monotone_clock h = true -> has_racy_rename truth csize h = false -> has_forgery truth csize h = false ->
-  has_racy_write truth csize h = false.
+Theorem C12_no_racy_write : forall truth csize chash, (forall a b, chash a = chash b -> a = b) -> forall h,
+  monotone_clock h = true -> has_racy_rename truth csize chash h = false -> has_forgery truth csize chash h = false ->
+  has_racy_write truth csize chash h = false.
 Proof. exact no_racy_write. Qed.
 Print Assumptions C12_no_racy_write.
 
 (* the reachable-state invariant behind both: an entry of a loadable cache whose (mtime, size)
    match the file now at its path carries that file's true statistics *)
-Theorem C12_cache_invariant : forall truth csize h,
-  monotone_clock h = true -> has_racy_rename truth csize h = false -> has_forgery truth csize h = false ->
-  let w := fst (exec truth csize world0 h) in
-  forall es p e f, load_cache (w_cache w) (w_cfg w) = Some es ->
+Theorem C12_cache_invariant : forall truth csize chash, (forall a b, chash a = chash b -> a = b) -> forall h,
+  monotone_clock h = true -> has_racy_rename truth csize chash h = false -> has_forgery truth csize chash h = false ->
+  let w := fst (exec truth csize chash world0 h) in
+  forall es p e f, load_cache (w_cache w) (chash (w_cfg w)) = Some es ->
     lookup p es = Some e -> lookup p (w_files w) = Some f ->
     metadata_matches e (f_mtime f) (csize (f_cid f)) = true ->
     exists l, lang_of (w_cfg w) p = Some l /\ truth l (f_cid f) = Some (ce_stats e).
@@ -43,44 +45,49 @@ Proof. exact cache_invariant. Qed.
 Print Assumptions C12_cache_invariant.
 
 (* the step form of the invariant (any world satisfying it, any clock value not behind it) *)
-Theorem C12_run_preserves_invariant : forall truth csize w excl now last,
-  Inv truth csize w last -> last <= now ->
-  fst (run_cached truth csize w excl now) = run_uncached truth csize w excl now /\
-  Inv truth csize (snd (run_cached truth csize w excl now)) now.
+Theorem C12_run_preserves_invariant : forall truth csize chash, (forall a b, chash a = chash b -> a = b) -> forall w excl now last,
+  Inv truth csize chash w last -> last <= now ->
+  fst (run_cached truth csize chash w excl now) = run_uncached truth csize w excl now /\
+  Inv truth csize chash (snd (run_cached truth csize chash w excl now)) now.
 Proof. exact run_cached_spec. Qed.
 Print Assumptions C12_run_preserves_invariant.
 
 (* a cache file that load_cache rejects (absent, unparsable, foreign version, other hash) is
    ignored: the invocation behaves exactly like --no-sloc-cache, in ANY world *)
-Theorem C12_corrupt_is_ignored : forall truth csize w excl now,
-  load_cache (w_cache w) (w_cfg w) = None ->
-  fst (run_cached truth csize w excl now) = run_uncached truth csize w excl now.
+Theorem C12_corrupt_is_ignored : forall truth csize chash w excl now,
+  load_cache (w_cache w) (chash (w_cfg w)) = None ->
+  fst (run_cached truth csize chash w excl now) = run_uncached truth csize w excl now.
 Proof. exact corrupt_is_ignored. Qed.
 Print Assumptions C12_corrupt_is_ignored.
 
 (* ... and every corruption kind of the model, applied to any cache file, is rejected *)
-Theorem C12_corruptions_unloadable : forall k cf cfg,
+Theorem C12_corruptions_unloadable : forall k cf (cur : N),
   match k with KGarbage | KRemove | KBadHash => True | KVersion v => v <> CACHE_VERSION | KForge _ _ => False end ->
-  load_cache (corrupt k cf) cfg = None.
+  load_cache (corrupt k cf) cur = None.
 Proof. exact corrupt_unloadable. Qed.
 Print Assumptions C12_corruptions_unloadable.
 
-(* a cache is only ever loaded under the [languages] table it was written under; the statistics
-   of a file depend on nothing else of the configuration *)
-Theorem C12_config_hash_sufficient : forall cf cfg es, load_cache cf cfg = Some es ->
-  exists h, cf = CValid CACHE_VERSION (Some h) es /\ forall p, lang_of h p = lang_of cfg p.
+(* a cache is only ever loaded when it carries the hash of the current [languages] table; with an
+   injective hash that is the table it was written under, and the statistics of a file depend on
+   nothing else of the configuration *)
+Theorem C12_config_hash_sufficient : forall chash, (forall a b, chash a = chash b -> a = b) ->
+  forall cf cfg es, load_cache cf (chash cfg) = Some es ->
+  cf = CValid CACHE_VERSION (Some (chash cfg)) es /\
+  forall cfg', chash cfg' = chash cfg -> forall p, lang_of cfg' p = lang_of cfg p.
 Proof. exact config_hash_sufficient. Qed.
 Print Assumptions C12_config_hash_sufficient.
 
 (* ---- refuted parts (witnesses by vm_compute) *)
-(* two files written in the same second with the same size; after a run, one is renamed over the
+(* (the [languages] table never changes in the next two witnesses, so the hash function plays no
+   role in them)
+   two files written in the same second with the same size; after a run, one is renamed over the
    other: the cached run reports the statistics of the file that is gone *)
 Example C12_refuted_rename_same_meta :
-  exists truth csize h,
-    monotone_clock h = true /\ has_forgery truth csize h = false /\ has_racy_write truth csize h = false /\
-    has_racy_rename truth csize h = true /\ transparent truth csize h = false.
+  exists truth csize chash h,
+    monotone_clock h = true /\ has_forgery truth csize chash h = false /\ has_racy_write truth csize chash h = false /\
+    has_racy_rename truth csize chash h = true /\ transparent truth csize chash h = false.
 Proof.
-  exists (fun _ c => if N.eqb c 1 then Some (mkS 2 2 0 0 0) else Some (mkS 2 1 1 0 0)), (fun _ => 18),
+  exists (fun _ c => if N.eqb c 1 then Some (mkS 2 2 0 0 0) else Some (mkS 2 1 1 0 0)), (fun _ => 18), (fun _ => 0),
     [Write (1,1) 1 100; Write (2,1) 2 100; Run Check [] 102; Rename (1,1) (2,1); Run StatsFiles [] 104].
   vm_compute. repeat split; reflexivity.
 Qed.
@@ -88,11 +95,11 @@ Print Assumptions C12_refuted_rename_same_meta.
 
 (* a well-formed in-place edit of one entry's statistics is trusted (there is no checksum) *)
 Example C12_refuted_wellformed_edit :
-  exists truth csize h,
-    monotone_clock h = true /\ has_racy_rename truth csize h = false /\ has_forgery truth csize h = true /\
-    transparent truth csize h = false.
+  exists truth csize chash h,
+    monotone_clock h = true /\ has_racy_rename truth csize chash h = false /\ has_forgery truth csize chash h = true /\
+    transparent truth csize chash h = false.
 Proof.
-  exists (fun _ _ => Some (mkS 2 2 0 0 0)), (fun _ => 18),
+  exists (fun _ _ => Some (mkS 2 2 0 0 0)), (fun _ => 18), (fun _ => 0),
     [Write (1,1) 1 100; Run Check [] 102; Corrupt (KForge (1,1) (mkS 9 7 1 1 0)); Run Check [] 103].
   vm_compute. repeat split; reflexivity.
 Qed.
@@ -104,8 +111,9 @@ Print Assumptions C12_refuted_wellformed_edit.
 Example C12_same_second_same_size_repaired :
   let truth := (fun (_ c : N) => if N.eqb c 1 then Some (mkS 2 2 0 0 0) else Some (mkS 2 1 1 0 0)) in
   let h := [Write (1,1) 1 100; Run Check [] 100; Write (1,1) 2 100; Run StatsSummary [] 100; Run StatsFiles [] 105] in
-  transparent truth (fun _ => 18) h = true /\ has_racy_write truth (fun _ => 18) h = false /\
-  snd (exec truth (fun _ => 18) world0 h) =
+  let chash := (fun c : langs => fold_right (fun x a => 1 + fst x + 64 * (snd x + 1024 * a)) 0 c) in
+  transparent truth (fun _ => 18) chash h = true /\ has_racy_write truth (fun _ => 18) chash h = false /\
+  snd (exec truth (fun _ => 18) chash world0 h) =
     [([((1,1), mkS 2 2 0 0 0)], [((1,1), mkS 2 2 0 0 0)]);
      ([((1,1), mkS 2 1 1 0 0)], [((1,1), mkS 2 1 1 0 0)]);
      ([((1,1), mkS 2 1 1 0 0)], [((1,1), mkS 2 1 1 0 0)])].
@@ -119,10 +127,25 @@ Example C12_nonvacuous :
   let h := [Write (1,1) 1 100; Run Check [] 101; Run Check [] 101; Write (1,1) 2 102; Run Check [] 103;
             SetLanguages [(1,100)]; Run StatsFiles [] 104; Corrupt (KVersion 2); Run Check [] 105;
             Rename (1,1) (2,1); Run Snapshot [] 106] in
-  monotone_clock h = true /\ has_racy_rename truth (fun _ => 18) h = false /\ has_forgery truth (fun _ => 18) h = false /\
-  transparent truth (fun _ => 18) h = true /\
-  map fst (snd (exec truth (fun _ => 18) world0 h)) =
+  let chash := (fun c : langs => fold_right (fun x a => 1 + fst x + 64 * (snd x + 1024 * a)) 0 c) in
+  monotone_clock h = true /\ has_racy_rename truth (fun _ => 18) chash h = false /\ has_forgery truth (fun _ => 18) chash h = false /\
+  transparent truth (fun _ => 18) chash h = true /\
+  map fst (snd (exec truth (fun _ => 18) chash world0 h)) =
     [[((1,1), mkS 2 2 0 0 0)]; [((1,1), mkS 2 2 0 0 0)]; [((1,1), mkS 2 1 1 0 0)]; [((1,1), mkS 2 0 2 0 0)];
      [((1,1), mkS 2 0 2 0 0)]; [((2,1), mkS 2 0 2 0 0)]].
 Proof. vm_compute. repeat split; reflexivity. Qed.
 Print Assumptions C12_nonvacuous.
+
+(* the injectivity assumption is needed: with a hash that does not separate two [languages]
+   tables (here: no table from the empty one) a configuration change leaves the cache valid and
+   the cached run reports the statistics counted under the old table *)
+Example C12_refuted_colliding_hash :
+  exists truth csize chash h,
+    monotone_clock h = true /\ has_racy_rename truth csize chash h = false /\ has_forgery truth csize chash h = false /\
+    has_racy_write truth csize chash h = false /\ transparent truth csize chash h = false.
+Proof.
+  exists (fun l _ => if N.eqb l 100 then Some (mkS 2 0 2 0 0) else Some (mkS 2 2 0 0 0)), (fun _ => 18), (fun _ => 7),
+    [Write (1,1) 1 100; Run Check [] 102; SetLanguages [(1,100)]; Run StatsFiles [] 103].
+  vm_compute. repeat split; reflexivity.
+Qed.
+Print Assumptions C12_refuted_colliding_hash.
